@@ -1,5 +1,6 @@
 /* Route F: the relational constructors of symengine/logic.cpp (rel.inc, extracted) against the
    ghost-number contracts.  The postconditions are the sentences of property C29. */
+#define GHOST_BASIC_EXTRA RCPBasic logical_not_Equality() const; RCPBasic logical_not_Unequality() const; RCPBasic logical_not_LessThan() const; RCPBasic logical_not_StrictLessThan() const;
 #include "ghostnum.h"
 GHOSTNUM_GLOBALS
 struct SymEngineException {}; struct NotImplementedError {};
@@ -114,4 +115,21 @@ extern "C" void h_order_any(void)
     OBL("C29.order.post.symbolic_definite_only_if_identical", a->id == b->id && r->bval == (which == 0 || which == 2));
   }
   REACHABLE("h_order_any");
+}
+
+/* ---- negation of the relational objects: not(a == b) is a != b, not(a <= b) is b < a, not(a < b) is b <= a (operands swapped) */
+extern "C" void h_logical_not(void)
+{
+  g_init_constants();
+  Basic SA, SB; RCPBasic a = operand(&SA, false), b = operand(&SB, false);
+  WITNESS(a, b);
+  verif_may_throw = false;
+  int which = nondet_int(); __CPROVER_assume(which >= 0 && which <= 3);
+  g_region(0);
+  RCPBasic r = which == 0 ? mk_Equality(a, b) : which == 1 ? mk_Unequality(a, b) : which == 2 ? mk_LessThan(a, b) : mk_StrictLessThan(a, b);
+  g_region(1);
+  RCPBasic n = which == 0 ? r->logical_not_Equality() : which == 1 ? r->logical_not_Unequality() : which == 2 ? r->logical_not_LessThan() : r->logical_not_StrictLessThan();
+  OBL("C29.logical_not.post.negated_relation_kind", n->type_code_ == (which == 0 ? SYMENGINE_UNEQUALITY : which == 1 ? SYMENGINE_EQUALITY : which == 2 ? SYMENGINE_STRICTLESSTHAN : SYMENGINE_LESSTHAN));
+  OBL("C29.logical_not.post.operands_kept_for_eq_ne_swapped_for_order", which <= 1 ? (n->arg1->id == a->id && n->arg2->id == b->id) : (n->arg1->id == b->id && n->arg2->id == a->id));
+  REACHABLE("h_logical_not");
 }
